@@ -21,7 +21,6 @@ import (
 	"strings"
 	"sync"
 
-	"github.com/attestantio/go-eth2-client/spec/phase0"
 	ethtypes "github.com/ethereum/go-ethereum/core/types"
 
 	"github.com/bloxapp/ssv/eth/eventhandler"
@@ -67,6 +66,7 @@ func curated() []history {
 		{"recipient-undecryptable-valid", 1, []step{p, blk("feeRecipient(A,R1)", "vAdd(V1,A,undecryptable)", "vAdd(V1,A)")}, 1},
 		{"foreign-owner", 1, []step{p, add1, blk("vAdd(V1,B)", "vRemove(V1,B)", "vRemove(V1,A)")}, 2},
 		{"all-in-one-block", 1, []step{blk(append(append([]string{}, opsBlock...), "vAdd(V1,A)", "vExit(V1,A)")...), blk("reactivate(A)", "vAdd(V1,A,keyMismatch)", "vAdd(V2,A)")}, 0},
+		{"reactivate-remove-one-block", 1, []step{p, add1, decided(1), blk("reactivate(A)", "vRemove(V1,A)")}, 2},
 		{"not-a-member", 5, []step{blk(append(append([]string{}, opsBlock...), "opAdd(5,K5)")...), blk("vAdd(V1,A)", "liquidate(A)"), blk("vRemove(V1,A)")}, 1},
 	}
 }
@@ -242,19 +242,14 @@ func observe(w *world, n *reg.Node, ctl *reg.Ctl) final {
 	return f
 }
 
-func describeKV(fx *reg.Fixture, l []reg.KV) map[string]string {
-	out := map[string]string{}
-	for _, e := range l {
-		h := sha256.Sum256([]byte(e.V))
-		out[fmt.Sprintf("%q", e.K)] = fmt.Sprintf("%d bytes %x", len(e.V), h[:6])
-	}
-	return out
-}
-
 // compare returns the differences between the final state of a faulted execution and the
 // uninterrupted one ("" = equal under the property's notion of equality).
 func compare(got, want final) []string {
-	var d []string
+	d, _ := compareStale(got, want)
+	return d
+}
+
+func compareStale(got, want final) (d []string, stale int) {
 	g, w := map[string]string{}, map[string]string{}
 	for _, e := range got.Other {
 		g[e.K] = e.V
@@ -305,7 +300,9 @@ func compare(got, want final) []string {
 			case !aok:
 				d = append(d, fmt.Sprintf("slashing protection: %s record of %s missing", what, k))
 			case !bok:
-				d = append(d, fmt.Sprintf("slashing protection: stale %s record of %s", what, k))
+				// a record the uninterrupted run does not have is on the safe side of ">=" (it can only
+				// raise the protection of a key that is added again): counted, not a violation
+				stale++
 			case av < bv:
 				d = append(d, fmt.Sprintf("slashing protection: %s of %s is %d, below the uninterrupted %d", what, k, av, bv))
 			}
@@ -316,7 +313,7 @@ func compare(got, want final) []string {
 	if !reg.Equal(got.Mem, got.Raw) {
 		d = append(d, "in-memory view differs from the database: "+strings.Join(reg.Diff(got.Mem, got.Raw), " ; "))
 	}
-	return d
+	return d, stale
 }
 
 func printable(k string) string {
@@ -406,19 +403,19 @@ type fault struct {
 func (f fault) String() string { return fmt.Sprintf("%s@%d", f.mode, f.k) }
 
 type execResult struct {
-	faults     []fault
-	sites      []string
-	ends       []lifeEnd
-	errs       []string
-	logs       [][]string // proxied call log of every life
-	fired      []bool
-	final      final
-	diffs      []string
-	problem    string // recovery failed etc.
-	inferior   string // "" if the ErrInferiorBlock guard held
-	midKeys    []string // canonical surviving database at every restart
-	asked      []uint64 // real lives: block numbers the node asked the chain for
-	real       bool
+	faults   []fault
+	sites    []string
+	ends     []lifeEnd
+	errs     []string
+	logs     [][]string // proxied call log of every life
+	fired    []bool
+	final    final
+	diffs    []string
+	problem  string   // recovery failed etc.
+	inferior string   // "" if the ErrInferiorBlock guard held
+	midKeys  []string // canonical surviving database at every restart
+	asked    []uint64 // real lives: block numbers the node asked the chain for
+	real     bool
 }
 
 type runner struct {
@@ -598,6 +595,7 @@ func main() {
 	partial := 0
 	orphanRuns := 0
 	realRuns := 0
+	staleRuns := 0
 	asked := map[string]int{}
 	var bounds []string
 
@@ -683,7 +681,11 @@ func main() {
 			r.Violate(sig("key-share-rows"), fmt.Sprintf("the key manager holds %d surplus account row(s) for share keys (rows per key: %v, usable: %v) although only %d fault(s) hit the window between the account row and the wallet index: a key share was stored more than once",
 				o, x.final.KM.Accounts, x.final.KM.Usable, allowed), "c12", trace, x.final.KM.Accounts, nil)
 		}
-		if d := compare(x.final, in.base.final); len(d) > 0 {
+		d, stale := compareStale(x.final, in.base.final)
+		if stale > 0 {
+			staleRuns++
+		}
+		if len(d) > 0 {
 			r.Violate(sig("final-state"), "after restart and resumption the final state differs from the uninterrupted run: "+strings.Join(d, " ; "), "c12", trace, d, nil)
 		}
 		if x.inferior != "" {
@@ -779,10 +781,11 @@ func main() {
 	r.Set("distinct_nontrivial_by_site", len(nontrivialSites))
 	r.Set("distinct_restart_states", partial)
 	r.Set("runs_leaving_orphan_account_rows", orphanRuns)
+	r.Set("runs_leaving_stale_slashing_records_for_removed_keys", staleRuns)
 	r.Set("histories", len(hs))
 	r.Set("runs_through_real_setupEventHandling", realRuns)
 	r.Set("blocks_requested_by_real_resume", asked)
-	r.Set("rule", "for every history, every proxied Database/Txn/KeyManager call k of the uninterrupted run and every mode in {crash-before, crash-after, error-return}: run with the fault at k, restart on the same badger, resume from last processed block + 1, finish; thorough: for every distinct surviving database, every call of the recovery life x every mode as a second fault")
+	r.Set("rule", "for every history, every proxied Database/Txn/KeyManager call k of the uninterrupted run and every mode in {crash-before, crash-after, error-return}: run with the fault at k, restart on the same badger, resume from last processed block + 1, finish; for every distinct surviving database the recovery is repeated through the node's real setupEventHandling + EventSyncer + ExecutionClient on a fake in-process chain endpoint; thorough: for every distinct surviving database, every call of the recovery life x every mode as a second fault")
 	r.Set("bounds", bounds)
 	r.Set("distinct_outcomes", len(outcomes))
 	r.Set("outcome_histogram", outcomes)
@@ -792,7 +795,7 @@ func main() {
 		"a handler error ends the process (cli/operator/node.go: logger.Fatal) and is followed by a restart",
 		"error-return faults: the call is not executed and returns an error (a failing Commit commits nothing)",
 		"key shares are compared as the set of keys the key manager can sign with; orphan account rows are counted, not violations",
-		"the beacon clock advances one epoch per restart; slashing-protection records must be >= the uninterrupted ones")
+		"the beacon clock advances one epoch per restart; slashing-protection records must be >= the uninterrupted ones; a record for a key the uninterrupted run has none for (left behind when RemoveShare finds the account already deleted) counts as >= and is only counted")
 	r.Finish(!r.Expired())
 }
 
@@ -883,9 +886,17 @@ func replay(r *ev.Run, fx *reg.Fixture) {
 	}
 	fmt.Println("uninterrupted: usable keys", base.final.KM.Usable, "memory", base.final.Mem)
 	fmt.Println("faulted:       usable keys", x.final.KM.Usable, "memory", x.final.Mem)
-	d := compare(x.final, base.final)
+	var d []string
 	if x.problem != "" {
 		d = append(d, x.problem)
+	} else {
+		d = compare(x.final, base.final)
+		if o := orphans(x.final.KM); o > 0 {
+			fmt.Printf("account rows per share key: %v (surplus %d)\n", x.final.KM.Accounts, o)
+			if strings.HasPrefix(v.Signature, "key-share-rows") || strings.HasPrefix(v.Signature, "real-resume key-share-rows") {
+				d = append(d, fmt.Sprintf("%d surplus account row(s): a key share was stored more than once", o))
+			}
+		}
 	}
 	if x.inferior != "" {
 		d = append(d, x.inferior)
@@ -900,6 +911,3 @@ func replay(r *ev.Run, fx *reg.Fixture) {
 	fmt.Println("not reproduced")
 	r.Finish(false)
 }
-
-var _ = phase0.Slot(0)
-var _ = describeKV
